@@ -12,7 +12,9 @@
 
    (the Sutherland-Hodgman area equals the independent exact reference - vertices of each rectangle inside the
    other + edge crossings, sorted around their centroid, shoelace - for boxes rotated in general position), and
-   with it the symmetry and the range [0,1] of the rotated IoU.  What is missing is a convex-polygon area theory
+   with it the symmetry and the range [0,1] of the rotated IoU.  For boxes with the SAME orientation (and for
+   unrotated boxes) all of this IS proved below (clip_area_exact_same_orientation, iou_same_orientation_sym / _range):
+   boxes of different orientations in general position are the only remaining gap.  What is missing is a convex-polygon area theory
    (area of an intersection as a measure; invariance of the shoelace sum under the insertion/removal of the clip
    vertices).  The link is instead established case by case: Qeq_bool (clip area) (inter_area_ref) is evaluated
    inside coqc on every pair the check sends to the model (tools/props/c08.py), and the implementation is compared
@@ -134,6 +136,32 @@ Theorem iou_unrotated_absent_iff_no_overlap :
     (iou Qops l r = None <-> ~ exists x y, in_open (to_ltwh Qops l) x y /\ in_open (to_ltwh Qops r) x y).
 Proof. exact iou_unrotated_none_iff_lemma. Qed.
 
+(* ... and for two boxes with the SAME orientation (any common angle): turned back by the common rotation they are
+   unrotated, so the clipped area is the closed form of the turned-back boxes (the overlap of the projections on the
+   common axes = the true intersection area of two parallel rectangles) and the IoU is exact, symmetric and in (0,1].
+   With this the general-position case (different orientations) is the only gap of clip_area_eq_ref. *)
+Theorem clip_area_exact_same_orientation :
+  forall l r : qbox, valid_box l -> valid_box r -> unit_dir l -> same_dir l r ->
+    clip_area Qops (rect_vertices Qops l) (rect_vertices Qops r) ==
+    aa_inter Qops (to_ltwh Qops (unrot (bc l) (bs l) l)) (to_ltwh Qops (unrot (bc l) (bs l) r)).
+Proof. exact clip_area_same_orientation_lemma. Qed.
+
+Theorem iou_exact_same_orientation :
+  forall l r : qbox, valid_box l -> valid_box r -> unit_dir l -> same_dir l r ->
+    oeq (iou Qops l r)
+        (iou_of Qops (aa_inter Qops (to_ltwh Qops (unrot (bc l) (bs l) l)) (to_ltwh Qops (unrot (bc l) (bs l) r)))
+                (box_area Qops l) (box_area Qops r)).
+Proof. exact iou_same_orientation_lemma. Qed.
+
+Theorem iou_same_orientation_sym :
+  forall l r : qbox, valid_box l -> valid_box r -> unit_dir l -> same_dir l r -> oeq (iou Qops l r) (iou Qops r l).
+Proof. exact iou_same_orientation_sym_lemma. Qed.
+
+Theorem iou_same_orientation_range :
+  forall (l r : qbox) v, valid_box l -> valid_box r -> unit_dir l -> same_dir l r ->
+    iou Qops l r = Some v -> 0 < v <= 1.
+Proof. exact iou_same_orientation_range_lemma. Qed.
+
 (* the cheap pre-check: symmetric, and never true for two boxes that share a point *)
 Theorem too_far_sym : forall l r : qbox, too_far Qops l r = too_far Qops r l.
 Proof. exact too_far_sym_lemma. Qed.
@@ -225,4 +253,15 @@ Example c08_nonvacuous :
   iou Qops c d = Some (9 # 23) /\
   aa_inter Qops (to_ltwh Qops c) (to_ltwh Qops d) = 9 # 4 /\
   too_far Qops a (mkbox (num:=Qops) 10 0 1 0 (1 # 2) 2) = true.
+Proof. cbv zeta. repeat split; vm_compute; reflexivity. Qed.
+
+(* Non-vacuity of the same-orientation theorems: two boxes along the 3-4-5 direction (c = 3/5, s = 4/5) *)
+Example c08_same_orientation_nonvacuous :
+  let l := mkbox (num:=Qops) 0 0 (3 # 5) (4 # 5) 2 2 in
+  let r := mkbox (num:=Qops) 1 (1 # 2) (3 # 5) (4 # 5) 1 2 in
+  valid_box l /\ valid_box r /\ unit_dir l /\ same_dir l r /\
+  Qeq_bool (clip_area Qops (rect_vertices Qops l) (rect_vertices Qops r))
+           (aa_inter Qops (to_ltwh Qops (unrot (bc l) (bs l) l)) (to_ltwh Qops (unrot (bc l) (bs l) r))) = true /\
+  Qlt_le_dec 0 (clip_area Qops (rect_vertices Qops l) (rect_vertices Qops r)) = left eq_refl /\
+  iou Qops l r = iou Qops r l.
 Proof. cbv zeta. repeat split; vm_compute; reflexivity. Qed.
